@@ -208,8 +208,15 @@ pub fn run(tier: Tier, seed: u64) -> i32 {
                     na += 1;
                     for (hname, header) in [("D as input and D_out", ["CLK", "D", "D_out"]), ("D only through D_out", ["CLK", "A", "D_out"]), ("D not mentioned", ["CLK", "A", "Q"])] {
                         let p2 = Program { header: header.iter().map(|s| s.to_string()).collect(), body: prog.body.clone() };
-                        cases.push(Case::new(&format!("bidirectional signal, {hname}, K={k} #{idx} {}", if ov { "Ov" } else { "Fw" }), p2, sigs_bidir.clone(), ov, ans_bidir.clone(), ans_bidir.clone(), 40));
+                        cases.push(Case::new(&format!("bidirectional signal, {hname}, K={k} #{idx} {}", if ov { "Ov" } else { "Fw" }), p2.clone(), sigs_bidir.clone(), ov, ans_bidir.clone(), ans_bidir.clone(), 40));
                         na += 1;
+                        // the same with a bidirectional signal that floats by default: it is input-capable all the same
+                        if k <= 2 {
+                            let mut sz = sigs_bidir.clone();
+                            sz[1] = Sig::bidir("D", 4, V::Z);
+                            cases.push(Case::new(&format!("bidirectional signal with default Z, {hname}, K={k} #{idx} {}", if ov { "Ov" } else { "Fw" }), p2, sz, ov, ans_bidir.clone(), ans_bidir.clone(), 40));
+                            na += 1;
+                        }
                     }
                 }
             }
